@@ -137,11 +137,134 @@ def provides(keys, units):
 # checks whose proof units establish the callee contracts applied here (re-verified by this check, see main.dependency_units)
 DEPENDENCIES = ['C04', 'C05', 'C12']
 
+
+# ----------------------------------------------------------------------------- bounded stand-in for "every order of decoding"
+# The purity obligation above (no store to pre-existing state on any path) is the proof of order independence.  When a
+# change makes decoding keep state (a cache, a lazily filled table) that obligation fails without an input to show; this
+# bounded native check then looks for an actual witness: a frame whose decoding, AFTER another frame was decoded, differs
+# from its decoding in a pristine process.  Labelled bounded; it adds nothing when the proof goes through.
+def _pool():
+    datas = [0x0000, 0x0105, 0x01FE, 0xA100, 0xA300, 0xC106, 0xC108, 0xFF90, 0xFE30, 0x01E0, 0x03E3, 0xC100, 0xBD00,
+             0x01FE30, 0xC10030, 0xC10400, 0xC10401, 0xFFFE90, 0x028413, 0x0A8001, 0x0A0401, 0x8F0012, 0xBF1234,
+             0x1FE30, 0x105, 0x7FFFFF, 0xFFFFFF, 0xFFFF, 0x1, 0xC1, 0xC10A01, 0xC10A33]
+    out = []
+    for bits in (8, 9, 15, 16, 17, 23, 24, 25, 32):
+        for d in datas:
+            if d < (1 << bits):
+                out.append((bits, d))
+    return out
+
+
+def _describe(cmd, bits, data):
+    fr = cmd.frame
+    try:
+        txt = str(cmd)
+    except Exception as e:      # noqa: BLE001
+        txt = "str raised %s" % type(e).__name__
+    return (type(cmd).__module__ + "." + type(cmd).__name__, len(fr), fr.as_integer, txt)
+
+
+def _pristine(job):
+    """decode each frame of the chunk in a process that has decoded nothing else: fork per frame"""
+    import os
+    import pickle
+    out = []
+    for bits, data, dt in job:
+        r, w = os.pipe()
+        pid = os.fork()
+        if pid == 0:
+            try:
+                res = _describe(C.Command.from_frame(F.ForwardFrame(bits, data), devicetype=dt), bits, data)
+            except Exception as e:      # noqa: BLE001
+                res = ("raised", type(e).__name__, str(e), "")
+            os.write(w, pickle.dumps(res))
+            os._exit(0)
+        os.close(w)
+        buf = b""
+        while True:
+            chunk = os.read(r, 65536)
+            if not chunk:
+                break
+            buf += chunk
+        os.close(r)
+        os.waitpid(pid, 0)
+        out.append(((bits, data, dt), pickle.loads(buf)))
+    return out
+
+
+def _after_others(job):
+    """in a fresh forked worker: decode g, then f, compare f with its pristine description"""
+    firsts, seconds, want = job
+    bad = []
+    n = 0
+    for g in firsts:
+        try:
+            C.Command.from_frame(F.ForwardFrame(g[0], g[1]), devicetype=g[2])
+        except Exception:       # noqa: BLE001
+            pass
+        for f in seconds:
+            n += 1
+            try:
+                got = _describe(C.Command.from_frame(F.ForwardFrame(f[0], f[1]), devicetype=f[2]), f[0], f[1])
+            except Exception as e:      # noqa: BLE001
+                got = ("raised", type(e).__name__, str(e), "")
+            if got != want[f]:
+                bad.append((g, f, got, want[f]))
+                if len(bad) > 20:
+                    return n, bad
+    return n, bad
+
+
+def extra_checks(tier, seed):
+    import multiprocessing as mp
+    import time
+    t0 = time.time()
+    pool_frames = [(b, d, dt) for (b, d) in _pool() for dt in ((0, 6, 8) if b in (16, 24) else (0,))]
+    ctx = mp.get_context("fork")
+    with ctx.Pool(16, maxtasksperchild=1) as pool:
+        chunks = [pool_frames[i::16] for i in range(16)]
+        want = {}
+        for part in pool.map(_pristine, chunks):
+            want.update(dict(part))
+    bad_first = [(f, w) for f, w in want.items() if w[0] == "raised" or w[1] != f[0] or w[2] != f[1]]
+    with ctx.Pool(16, maxtasksperchild=1) as pool:
+        jobs = [(pool_frames[i::32], pool_frames, want) for i in range(32)]
+        n = 0
+        bad = []
+        for k, b in pool.imap_unordered(_after_others, jobs):
+            n += k
+            bad.extend(b)
+    out = []
+    if bad_first:
+        f, w = bad_first[0]
+        out.append({"name": "C01/bounded/pool-frames-decode-in-a-pristine-process", "status": "failed", "cases": len(want),
+                    "kind": "bounded-native", "seconds": time.time() - t0,
+                    "detail": "ForwardFrame(%d, %#x) devicetype=%d decoded alone gives %r" % (f[0], f[1], f[2], w),
+                    "witness": {"frame": list(f), "decoded": list(w)}, "replay": {"frame": list(f), "decoded": list(w)}})
+    if bad:
+        bad.sort(key=repr)
+        g, f, got, w = bad[0]
+        out.append({"name": "C01/bounded/decoding-does-not-depend-on-what-was-decoded-before", "status": "failed", "cases": n,
+                    "kind": "bounded-native", "seconds": time.time() - t0,
+                    "detail": "after decoding ForwardFrame(%d, %#x) [devicetype %d], ForwardFrame(%d, %#x) [devicetype %d] decodes to %r; "
+                              "in a pristine process it decodes to %r (%d such pairs)" % (g[0], g[1], g[2], f[0], f[1], f[2], got, w, len(bad)),
+                    "witness": {"first": list(g), "then": list(f), "decoded": list(got), "pristine": list(w)},
+                    "replay": {"how": "Command.from_frame on the real code, the two frames in this order in one process",
+                               "first": list(g), "then": list(f), "decoded": list(got), "pristine": list(w)}})
+    else:
+        out.append({"name": "C01/bounded/decoding-does-not-depend-on-what-was-decoded-before", "status": "discharged",
+                    "cases": n, "kind": "bounded-native", "seconds": time.time() - t0,
+                    "detail": "%d ordered pairs from a pool of %d frames (lengths 8,9,15,16,17,23,24,25,32; device types 0,6,8): the "
+                              "second decode equals the decode of the same frame in a pristine (forked) process" % (n, len(pool_frames))})
+    return out
+
 META = {
     "level": "proof",
     "bounds": {"16-bit": "all 2^16 data words x any int device type (symbolic)",
                "24-bit": "all 2^24 data words, no map; all event frames under a map resolving to None or to any int",
-               "other lengths": "1..64 symbolic", },
+               "other lengths": "1..64 symbolic",
+               "order of decoding (BOUNDED stand-in next to the purity proof)": "ordered pairs from a pool of ~330 frames "
+               "(lengths 8..32 around the two command lengths, device types 0/6/8): second decode == pristine decode"},
     "assumptions": [
         "Frame, Address and Instance operations are used through their contracts (C05, C04)",
         "the instance-type map is abstracted by the contract of DeviceInstanceTypeMapper.get_type: an arbitrary but fixed "
